@@ -207,7 +207,8 @@ Lemma fresh_add_question buf0 lim qname qtype qclass b4 u w5 :
   let w4 := set_buf (mkW buf0 header_size lim lim header_size SecQuestion 0 0 0 0 None None None Standard None None) b4 in
   add_question qname qtype qclass w4 = Ok (u, w5) ->
   w_rr_start w5 = 12 + length (nm_wire qname ++ be16 qtype ++ be16 qclass) /\
-  slice (w_buf w5) 12 (12 + length (nm_wire qname ++ be16 qtype ++ be16 qclass)) = nm_wire qname ++ be16 qtype ++ be16 qclass.
+  slice (w_buf w5) 12 (12 + length (nm_wire qname ++ be16 qtype ++ be16 qclass)) = nm_wire qname ++ be16 qtype ++ be16 qclass /\
+  w_tsig w5 = None /\ w_edns w5 = None.
 Proof.
   intros w4 E. unfold add_question in E. cbn [w_section w4 set_buf w_qd] in E.
   change (checked_add16 0 1) with (Some 1%N) in E. cbv iota in E. unfold with_rollback in E.
@@ -230,7 +231,7 @@ Proof.
   assert (L16 : forall v, length (be16 v) = 2) by reflexivity.
   rewrite !app_length, !L16. rewrite !L16 in *.
   set (n := length (nm_wire qname)) in *.
-  split; [lia|].
+  split; [lia|]. split; [|split; reflexivity].
   replace (12 + (n + (2 + 2))) with (12 + n + 2 + 2) by lia.
   rewrite (slice_app bc 12 (12 + n) (12 + n + 2 + 2)) by lia.
   rewrite (slice_app bc (12 + n) (12 + n + 2) (12 + n + 2 + 2)) by lia.
@@ -265,7 +266,7 @@ Proof.
   unfold set_rd, w_set_flag, w_modify in E4. destruct (nth_error _ _); [|discriminate].
   apply w_write_inv in E4. destruct E4 as (b4 & _ & ->). rewrite set_buf_idem in *.
   destruct (add_question qname qtype qclass (set_buf w0 b4)) as [[u w5]|e|] eqn:E5; try discriminate.
-  destruct (fresh_add_question _ _ _ _ _ _ _ _ E5) as (R5 & S5).
+  destruct (fresh_add_question _ _ _ _ _ _ _ _ E5) as (R5 & S5 & _).
   destruct edns as [size|].
   - unfold set_edns. destruct (w_edns w5); [discriminate|].
     destruct (w_avail w5 <? w_cursor w5 + opt_record_size); [discriminate|].
